@@ -24,7 +24,7 @@ from elementpath.sequences import XSequence
 from elementpath.datatypes import AnyAtomicType, Timezone, Language
 from elementpath.etree import is_etree_element, is_etree_element_instance, is_etree_document
 from elementpath.xpath_nodes import XPathNode, AttributeNode, NamespaceNode, \
-    CommentNode, ProcessingInstructionNode, ElementNode, DocumentNode
+    CommentNode, ProcessingInstructionNode, ElementNode, DocumentNode, TextNode
 from elementpath.tree_builders import get_node_tree
 
 __all__ = ['XPathContext', 'XPathSchemaContext']
@@ -603,18 +603,27 @@ class XPathContext:
 
     def iter_followings(self) -> Iterator[ta.ChildNodeType]:
         """Iterator for 'following' forward axis."""
-        if isinstance(self.item, ElementNode):
+        if isinstance(self.item, (ElementNode, TextNode, CommentNode, ProcessingInstructionNode)):
             status = self.item, self.axis
             self.axis = 'following'
 
-            descendants = set(self.item.iter_descendants())
+            descendants: set[Any]
+            if isinstance(self.item, ElementNode):
+                descendants = set(self.item.iter_descendants())
+            else:
+                descendants = {self.item}
             position = self.item.position
 
-            root = self.item
-            while isinstance(root.parent, ElementNode) and root is not self.root:
+            # The following nodes are searched from the top of the tree, that
+            # can be a document node with comments or PIs after the root element
+            root: Any = self.item
+            while root.parent is not None and root is not self.root:
                 root = root.parent
 
             try:
+                if not isinstance(root, (ElementNode, DocumentNode)):
+                    return  # a node without a tree
+
                 for item in root.iter_descendants(with_self=False):
                     if position < item.position and item not in descendants:
                         self.item = item
